@@ -5,6 +5,8 @@
 (*   M  mediation: every dependency graph (explicit versions, compile      *)
 (*      scope) over a, b, c, d, x:1, x:2, y:1, y:2 with bounded edges,     *)
 (*      grown one edge at a time in canonical order (each graph once)      *)
+(*   MX a fixed conflict graph whose edges are optional / test / runtime / *)
+(*      provided: what is cut does not take part in mediation              *)
 (*   S  scopes: root scope x two chained edges, each with declared /       *)
 (*      managed / omitted scope, optional flag, managed version            *)
 (*   S2 the same artifact reached from two roots with different scopes     *)
@@ -80,6 +82,9 @@ Tags(ph, u, rs, op, alt, d, allowed) ==
                                                         /\ seq[i].x.m # <<>> /\ seq[i].x.m[1].lvl < seq[i].x.lvl}}
    \cup {"inherits-group-version" : i \in {i \in kept : seq[i].ok /\ PomOf(u, IdOf(seq[i])).inh}}
    \cup {"optional-cut" : i \in {i \in kept : \E k \in DOMAIN deps(i) : deps(i)[k].d.o = "true"}}
+   \cup {"cut-does-not-compete" : i \in {i \in kept : \E k \in DOMAIN deps(i) :
+                /\ (deps(i)[k].d.o = "true" \/ DocTable[seq[i].s][ScopeOf(deps(i)[k].d.s)] = "-")
+                /\ \E j \in kept : KeyOf(seq[j]) = KeyOf(deps(i)[k].d) /\ Before([path |-> Append(seq[i].path, k)], seq[j])}}
    \cup {"optional-false-kept" : i \in {i \in kept : \E k \in DOMAIN deps(i) : deps(i)[k].d.o = "false"}}
    \cup UNION {{"table:" \o seq[i].s \o "/" \o ScopeOf(deps(i)[k].d.s) :
                     k \in {k \in DOMAIN deps(i) : deps(i)[k].d.o # "true"}} : i \in kept}
@@ -117,7 +122,8 @@ MRoots == IF Tier = 0
                 <<R("a", "1", "compile"), R("b", "1", "test"), R("c", "1", "compile")>>,
                 <<R("x", "1", "compile"), R("x", "2", "compile"), R("c", "1", "compile")>>}
 MaxDeps == IF Tier = 0 THEN 2 ELSE 3
-MaxEdges == IF Tier = 0 THEN 5 ELSE 6
+MaxEdges == IF Tier = 0 THEN 5
+            ELSE IF roots[1].a = "x" THEN 7 ELSE IF Len(roots) = 3 THEN 5 ELSE 6     \* keeps the thorough tier near 7 * 10^5 states
 MIx(c) == CHOOSE i \in 1..8 : MN[i] = c.a /\ MV[i] = c.v
 MReach ==
     LET RECURSIVE Cl(_)
@@ -161,6 +167,18 @@ PickS2 ==
     /\ \E s0 \in Scopes, s1 \in Scopes, sa \in {"compile", "runtime"}, sb \in {"compile", "runtime"} :
         Case("S2", Univ(<<Jar("r", "1", <<>>, <<D("n", "1", sa, "")>>), Jar("q", "1", <<>>, <<D("n", "1", sb, "")>>),
                           Jar("n", "1", <<>>, <<>>)>>), <<R("r", "1", s0), R("q", "1", s1)>>)
+
+(* MX: cutting comes before mediation - an optional / test / provided occurrence does not compete *)
+XAttr == {[s |-> "", o |-> ""], [s |-> "", o |-> "true"], [s |-> "test", o |-> ""], [s |-> "runtime", o |-> "false"],
+          [s |-> "provided", o |-> ""]}
+PickMX ==
+    /\ phase = "start"
+    /\ \E e1 \in XAttr, e2 \in XAttr, e3 \in XAttr, e4 \in XAttr, s0 \in {"compile", "test"} :
+        Case("MX", Univ(<<Jar("a", "1", <<>>, <<D("x", "1", e1.s, e1.o)>>), Jar("b", "1", <<>>, <<D("c", "1", "", ""), D("y", "2", e4.s, e4.o)>>),
+                          Jar("c", "1", <<>>, <<D("x", "2", e2.s, e2.o)>>),
+                          Jar("x", "1", <<>>, <<>>), Jar("x", "2", <<>>, <<D("y", "1", e3.s, e3.o)>>),
+                          Jar("y", "1", <<>>, <<>>), Jar("y", "2", <<>>, <<>>)>>),
+             <<R("a", "1", s0), R("b", "1", "compile")>>)
 
 ---------------------------------------------------------------------------
 (* G: where the managed entry for y comes from and who declares the dependency on y *)
@@ -256,7 +274,7 @@ PickT ==
 
 ---------------------------------------------------------------------------
 Init == phase = "start" /\ U = <<>> /\ roots = <<>> /\ res = <<>>
-Next == PickM \/ GrowM \/ PickS \/ PickS2 \/ PickG \/ PickGBad \/ PickGB \/ PickGK \/ PickK \/ PickR \/ PickT
+Next == PickM \/ GrowM \/ PickMX \/ PickS \/ PickS2 \/ PickG \/ PickGBad \/ PickGB \/ PickGK \/ PickK \/ PickR \/ PickT
 Spec == Init /\ [][Next]_vars
 
 ---------------------------------------------------------------------------
